@@ -195,10 +195,10 @@ func Check(p *Program, exp *Expect, out *Outcome) ([]Finding, *Decoded) {
 	bodyOK := false
 	switch {
 	case berr != nil && bytes.HasPrefix(want, body):
-		add("body-not-decodable", "reading the body fails after %d of %d bytes (all correct so far): %v\nwire around the failure: %s", len(body), exp.Total, berr, excerpt(wire, dec.HeadLen+len(body), 160))
+		add("body-not-decodable("+errClass(berr)+")", "reading the body fails after %d of %d bytes (all correct so far): %v\nwire around the failure: %s", len(body), exp.Total, berr, excerpt(wire, dec.HeadLen+len(body), 160))
 	case berr != nil:
 		d := firstDiff(body, want)
-		add("body-not-decodable", "reading the body fails after %d bytes: %v; the decoded bytes differ from the written ones from offset %d on (want %s, got %s)", len(body), berr, d, h.Hex(want[d:], 24), h.Hex(body[d:], 24))
+		add("body-not-decodable("+errClass(berr)+")", "reading the body fails after %d bytes: %v; the decoded bytes differ from the written ones from offset %d on (want %s, got %s)", len(body), berr, d, h.Hex(want[d:], 24), h.Hex(body[d:], 24))
 	case bytes.Equal(body, want):
 		bodyOK = true
 	case len(body) < len(want) && bytes.HasPrefix(want, body):
@@ -310,6 +310,27 @@ func Check(p *Program, exp *Expect, out *Outcome) ([]Finding, *Decoded) {
 	}
 	dec.OK = len(fs) == 0
 	return fs, dec
+}
+
+// errClass maps the reference decoder's error to a data-free class, so that
+// different ways of breaking the body framing get different signatures.
+func errClass(err error) string {
+	s := err.Error()
+	for _, c := range []struct{ has, class string }{
+		{"invalid byte in chunk length", "invalid-byte-in-chunk-length"},
+		{"malformed MIME header", "malformed-trailer-line"},
+		{"malformed chunked encoding", "malformed-chunked-encoding"},
+		{"chunk length too large", "chunk-length-too-large"},
+		{"too long", "line-too-long"},
+		{"reading trailer", "eof-in-trailer"},
+		{"unexpected EOF", "unexpected-eof"},
+		{"EOF", "unexpected-eof"},
+	} {
+		if strings.Contains(s, c.has) {
+			return c.class
+		}
+	}
+	return "other"
 }
 
 func firstN(s string, n int) string {
